@@ -83,7 +83,11 @@ func VerifHarness_C04_header_authenticated() {
 		rec = append(rec, verifNondetBytes("tail", 20)...)
 	}
 	vmac.wire = rec
-	vmac.allWindows = true // after a shortened length field the rest of the datagram is parsed at other offsets
+	if which >= 3 {
+		vmac.allWindows = true // after a changed length field the receiver looks for the MAC at other offsets
+	} else {
+		vmac.recStarts = []int{0} // the record keeps its shape: the MAC is where the sender put it
+	}
 	rt := &verifConn{in: rec}
 	r := newEstablished(rt, kind, iv, false)
 	buf := make([]byte, 4)
